@@ -19,6 +19,7 @@ import (
 	"time"
 
 	"github.com/els0r/goProbe/v4/pkg/goDB"
+	"github.com/els0r/goProbe/v4/pkg/goDB/encoder/encoders"
 	"github.com/els0r/goProbe/v4/pkg/goDB/engine"
 	"github.com/els0r/goProbe/v4/pkg/goDB/info"
 	"github.com/els0r/goProbe/v4/pkg/goDB/storage/gpfile"
@@ -36,12 +37,27 @@ type request struct {
 	First int64           `json:"first,omitempty"`
 	Last  int64           `json:"last,omitempty"`
 	Procs int             `json:"procs,omitempty"`
+	// writeraw
+	Sessions []writeSession `json:"sessions,omitempty"`
 	// merge
 	Src       string   `json:"src,omitempty"`
 	Ifaces    []string `json:"ifaces,omitempty"`
 	Overwrite bool     `json:"overwrite,omitempty"`
 	DryRun    bool     `json:"dry_run,omitempty"`
 	Tolerance int64    `json:"tolerance,omitempty"`
+}
+
+type rawBlock struct {
+	Ts       int64                  `json:"ts"`
+	Cols     [][]byte               `json:"cols"`
+	Traffic  gpfile.TrafficMetadata `json:"traffic"`
+	Counters types.Counters         `json:"counters"`
+}
+
+type writeSession struct {
+	Encoder string     `json:"encoder"`
+	Level   int        `json:"level"`
+	Blocks  []rawBlock `json:"blocks"`
 }
 
 type blockDump struct {
@@ -148,6 +164,39 @@ func handle(req *request) (resp response) {
 			resp.Err = err.Error()
 		}
 		resp.Days = days
+	case "writeraw":
+		// write sessions through the public GPDir writer API in this build configuration
+		for si, sess := range req.Sessions {
+			et, err := encoders.GetTypeByString(sess.Encoder)
+			if err != nil {
+				resp.Err = err.Error()
+				return
+			}
+			if len(sess.Blocks) == 0 {
+				continue
+			}
+			w := gpfile.NewDirWriter(filepath.Join(req.DB, req.Iface), sess.Blocks[0].Ts, gpfile.WithEncoderTypeLevel(et, sess.Level))
+			if err := w.Open(); err != nil {
+				resp.Err = fmt.Sprintf("session %d: open: %v", si, err)
+				return
+			}
+			for _, b := range sess.Blocks {
+				var cols [types.ColIdxCount][]byte
+				for i := range cols {
+					if i < len(b.Cols) {
+						cols[i] = b.Cols[i]
+					}
+				}
+				if err := w.WriteBlocks(b.Ts, b.Traffic, b.Counters, cols); err != nil {
+					resp.Err = fmt.Sprintf("session %d: write block %d: %v", si, b.Ts, err)
+					return
+				}
+			}
+			if err := w.Close(); err != nil {
+				resp.Err = fmt.Sprintf("session %d: close: %v", si, err)
+				return
+			}
+		}
 	case "merge":
 		summary, err := goDB.MergeDatabases(context.Background(), goDB.MergeOptions{
 			SourcePath: req.Src, DestinationPath: req.DB,
